@@ -76,11 +76,11 @@ func Verif_C16_KeyNoPanic() { c16KeyNoPanic(8, 2, 12) }
 func Verif_C16_KeyNoPanicT() { c16KeyNoPanic(32, 3, 40) }
 
 // Verif_C16_Guards: Key with N, r, p ranging over ALL int values (keyLen = 1). Allocations
-// above 128 elements are outside the claim ("arguments that exhaust memory"); the obligation is
+// above 256 elements are outside the claim ("arguments that exhaust memory"); the obligation is
 // that no panic (negative/overflowed make size, slice out of range) is reachable and that the
 // scratch buffers handed to smix have the mathematically right sizes (asserted in stubSmix).
 func Verif_C16_Guards() {
-	verifrt.MakeLimit(128)
+	verifrt.MakeLimit(256)
 	N := verifrt.Int()
 	r := verifrt.Int()
 	p := verifrt.Int()
